@@ -8,8 +8,8 @@ from mc.ref import ips
 
 ID = "C13"
 LEVEL = "model_checking"
-LEVEL_TEXT = ("Explicit enumeration of all IPS record sequences of length <=3 over 9 record kinds (plain 1/3/65535 bytes, run-length "
-              "1/4/65535, adjacent to the previous record, offset 0, offset 0xFFFFFE) x 6 deltas (zero, positive, negative, negative "
+LEVEL_TEXT = ("Explicit enumeration of all IPS record sequences of length <=3 over 11 record kinds (plain 1/3/65535 bytes, run-length "
+              "1/4/65535, adjacent to the previous record, offset 0, offset 0xFFFFFE, payload / size+payload spelling 'EOF') x 7 deltas (zero, positive, negative, negative "
               "result, constant expression) x 5 placements of the directive in a host program (incl. the same file included twice, and the "
               "same program assembled twice in one process), assembled by the real assembler; the "
               "writer calls are compared with an independent IPS reader's record list. Every byte-prefix of well-formed files and header "
@@ -22,14 +22,15 @@ RULE = ("state = record sequence of the included file (+delta, placement); trans
         "Malformed family: one evaluation per byte-prefix / header variant.")
 ASSUMPTIONS = ["strict IPS reader mc/ref/ips.py decides well-formedness", "rejected = error return or any exception"]
 
-KINDS = ["p1", "p3", "pmax", "r1", "r4", "rmax", "adj", "off0", "offhi"]
-DELTAS = [("0", 0), ("0x10", 0x10), ("0x200", 0x200), ("0-8", -8), ("NEG", None), ("dd+4", 0x24)]
+KINDS = ["p1", "p3", "pmax", "r1", "r4", "rmax", "adj", "off0", "offhi", "peof", "seof"]
+# "dr" is a := symbol that is assigned AGAIN after the directive: the delta is its value at the directive
+DELTAS = [("0", 0), ("0x10", 0x10), ("0x200", 0x200), ("0-8", -8), ("NEG", None), ("dd+4", 0x24), ("dr", 0x30)]
 PLACES = ["first", "between", "last", "block", "twice"]
 HOST_BLOCK = (0x8000, bytes([0x10, 0x11, 0x34, 0x12, 0x02, 0x80, 0x01, 0x01]))
 
 
 def bound(tier):
-    return ("record sequences of length 1..%d over 9 kinds" % (4 if tier == "thorough" else 3) + " (9+81+729%s)" % ("+6561" if tier == "thorough" else "") + " x 6 deltas x 5 placements (+ repeat); every byte-prefix of 3 well-formed "
+    return ("record sequences of length 1..%d over 11 kinds" % (4 if tier == "thorough" else 3) + " (11+121+1331%s)" % ("+14641" if tier == "thorough" else "") + " x 7 deltas x 5 placements (+ repeat); every byte-prefix of 3 well-formed "
             "files + 6 header/EOF variants")
 
 
@@ -67,6 +68,10 @@ def make_records(kind_idx):
             r = (base, (4, (0x52 + salt) & 0xFF), "rle")
         elif k == "rmax":
             r = (base, (0xFFFF, (0x53 + salt) & 0xFF), "rle")
+        elif k == "peof":
+            r = (base, b"THEOFFSET" + bytes([salt & 0xFF]), "plain")         # payload contains the bytes 'EOF'
+        elif k == "seof":
+            r = (base, b"F" + bytes((i * 5 + salt) & 0xFF for i in range(0x454F - 1)), "plain")  # size 0x454F then 'F': header+payload spell EOF
         elif k == "adj":
             r = (prev_end if prev_end <= 0xFFFFF0 else base, bytes([(0x77 + salt) & 0xFF, 0x78]), "plain")
         elif k == "off0":
@@ -115,10 +120,10 @@ def run_seq(prefix):
                 expected = [(o + dval, p) for o, p, _ in parsed]
                 if place == "twice":
                     # the same file included twice in one program, with different deltas
-                    src = "dd := 0x20\n" + host("between", directive) + f".include_ips 'p.ips', {dtext}+0x1000\n"
+                    src = "dd := 0x20\ndr := 0x30\n" + host("between", directive) + f".include_ips 'p.ips', {dtext}+0x1000\n" + "dr := 0x50\n"
                     expected = expected + [(o + dval + 0x1000, p) for o, p, _ in parsed]
                 else:
-                    src = "dd := 0x20\n" + host(place, directive)
+                    src = "dd := 0x20\ndr := 0x30\n" + host(place, directive) + "dr := 0x50\n"
                 out = impl.assemble(src, rom="low_rom", files={"p.ips": data})
                 evals += 1
                 if special or dval != 0:
